@@ -187,7 +187,9 @@ def blobOf (t : ClusterTail) (plain : Bytes) (blob : Nat) : Outcome Bytes :=
     let b := offs.getD blob 0
     let e := offs.getD (blob + 1) 0
     if b ≤ e then
-      if e ≤ plain.length then .ok (slice plain b (e - b)) else .err .format
+      -- a region ending beyond the data at hand (file cut short / decoder stopped early, D11
+      -- repaired: the reader gets an I/O error, it neither waits nor aborts)
+      if e ≤ plain.length then .ok (slice plain b (e - b)) else .err .io
     else .panic "offset.rs: subtraction underflow"
   else .panic "cluster.rs: blob index out of bounds"
 
@@ -206,12 +208,14 @@ def contentGet (decompress : Nat → Bytes → Option Bytes) (f : Bytes) (i : Na
     let b ← blobOf t payload blob
     .ok (some b)
   else
+    -- `decompress` = what the background decoder delivers before it ends or fails (`none`: the
+    -- decoder cannot even be set up).  Repaired code (D11): a failing or short decoder marks the
+    -- shared buffer as failed and wakes the readers, which get an I/O error for ranges beyond the
+    -- published length and the bytes for ranges below it.
     match decompress t.comp payload with
-    | none => .panic "compression.rs: decode_to_end(...).unwrap() in the decompression pool (process abort)"
-    | some plain =>
-      if plain.length < t.dataSize then .hang
-      else do
-        let b ← blobOf t (plain.take t.dataSize) blob
-        .ok (some b)
+    | none => .err .io
+    | some plain => do
+      let b ← blobOf t (plain.take t.dataSize) blob
+      .ok (some b)
 
 end Jubako
